@@ -16,6 +16,7 @@ import CaddyModel.C20.Witness
 import CaddyModel.C20.FEncProps
 import CaddyModel.C20.PlumbProps
 import CaddyModel.C20.RemoteAddr
+import CaddyModel.C20.LogAppendProps
 import CaddyModel.Gen.Redacted
 import CaddyModel.Gen.LogSites
 
@@ -325,13 +326,49 @@ theorem redacted_names_match_source :
 def wrappedKind (k : String) : Bool :=
   k == "wrapped" || k == "wrapped-value" || k == "wrappedcred:server-flag"
 
+/-- the one kind of header-derived value that reaches a log field outside the wrappers (found by the data-flow step of
+    round h): reverse_proxy's handleUpgradeResponse logs `upgradeType(h)` = the lower-cased `Upgrade` header value
+    when `Connection` lists `upgrade` — a protocol token, none of the four credential headers. -/
+def upgradeTokenSite (s : String × String × String) : Bool :=
+  s.1 == "reverseproxy" && (s.2.1 == "backend_upgrade" || s.2.1 == "requested_upgrade") &&
+  s.2.2 == "viavar:raw:net/http.Header:call:upgradeType"
+
+/-- the zap fields under modules/caddyhttp/… whose argument is an object / interface the typed scan cannot look into,
+    by (package, key, constructor:type): the automatic-HTTPS debug dump of the two apps (configuration, no request),
+    the handler module of the trace log (configuration), the fastcgi environment (its own marshaler `loggableEnv`
+    blanks HTTP_COOKIE / HTTP_SET_COOKIE / HTTP_AUTHORIZATION / HTTP_PROXY_AUTHORIZATION under the same flag — taint
+    oracle of the site stream, route fcg), the PROXY-protocol header (addresses), recovered panic values, and
+    log_append's `zap.Any(h.Key, value)` — the operator-defined extra field modelled in LogAppend.lean. -/
+def knownOpaqueFields : List (String × String × String) := [
+  ("caddyhttp", "http", "Reflect:*caddyhttp.App"),
+  ("caddyhttp", "tls", "Reflect:*caddytls.TLS"),
+  ("caddyhttp", "module", "Any:caddyhttp.MiddlewareHandler"),
+  ("fastcgi", "env", "Object:fastcgi.loggableEnv"),
+  ("logging", "h.Key", "Any:any"),
+  ("reverseproxy", "header", "Any:*proxyproto.Header"),
+  ("reverseproxy", "error", "Any:interface{}")]
+
+/-- **every log field is classified (unclassified = 0).**  Of ALL zap field constructor calls under
+    modules/caddyhttp/… (regenerated census, not only the request-typed ones) each is either classified by the typed
+    scan (an entry of `Gen.logSites`, judged by `all_sites_wrapped`), or has arguments of plain type (strings, numbers,
+    booleans, durations, times, errors, string slices — no header map or object can travel in them except through a
+    local variable, which the data-flow step turns into a `viavar:` site), or is one of the known opaque fields.
+    A new `zap.Any` / `zap.Object` / `zap.Reflect` of some structure, or a new header-derived local variable in a
+    log field, changes the regenerated facts and breaks this theorem or `all_sites_wrapped`. -/
+theorem every_log_field_is_classified :
+    Gen.logFieldCalls = Gen.logFieldClassified + Gen.logFieldPlain + Gen.logOpaqueFields.length ∧
+    Gen.logOpaqueFields.all (fun s => knownOpaqueFields.contains (s.1, s.2.2.1, s.2.2.2)) = true ∧
+    knownOpaqueFields.all (fun k => Gen.logOpaqueFields.any fun s => (s.1, s.2.2.1, s.2.2.2) == k) = true ∧
+    0 < Gen.logFieldPlain := by decide
+
 /-- **all sites wrapped.** Every zap field under modules/caddyhttp/… whose argument is (computed from) an
     `*http.Request`, `http.Header`, `http.Response` or cookies goes through the loggable wrappers; the
     modelled sites (by package and field key — function names are free to change) are among them with the flag
     the model gives them.  A new unwrapped log site, or a
     wrapper fed with another flag expression, changes the regenerated table and breaks this theorem. -/
 theorem all_sites_wrapped :
-    Gen.logSitesScanComplete = true ∧ Gen.logSites.all (fun s => wrappedKind s.2.2.2) = true ∧
+    Gen.logSitesScanComplete = true ∧
+    Gen.logSites.all (fun s => wrappedKind s.2.2.2 || upgradeTokenSite (s.1, s.2.2.1, s.2.2.2)) = true ∧
     ([("caddyhttp", "request", "wrappedcred:server-flag"),
       ("caddyhttp", "resp_headers", "wrappedcred:server-flag"),
       ("reverseproxy", "request", "wrappedcred:server-flag"),
